@@ -38,6 +38,10 @@ def gen(rng, tier):
     for k, t in enumerate([255, 256, 257, 300, 511, 513, 1000, 1025] * {"quick": 1, "search": 1, "thorough": 4}[tier]):
         cases.append({"n": rng.randint(1, 6), "t": t, "c": rng.randint(1, 4), "ties": k % 3 == 0,
                       "mag": rng.choice([0, 3, 9]), "seed": rng.randrange(1 << 30), "large": False})
+    # more than 2^21 distance entries with a number of validation points that no block count divides
+    for k, (n, t) in enumerate([(21000, 101), (33000, 65)] * {"quick": 1, "search": 1, "thorough": 2}[tier]):
+        cases.append({"n": n, "t": t, "c": rng.randint(2, 5), "ties": k % 2 == 1,
+                      "mag": rng.choice([0, 6]), "seed": rng.randrange(1 << 30), "large": True})
     for k, t in enumerate([300, 1000] * {"quick": 1, "search": 1, "thorough": 3}[tier]):
         cases.append({"n": 2000, "t": t, "c": rng.randint(2, 5), "ties": k % 2 == 0,
                       "mag": rng.choice([0, 6]), "seed": rng.randrange(1 << 30), "large": True})
